@@ -3,7 +3,7 @@ from analysis.facts import norm
 from analysis.cfg import Cfg
 from analysis.flow import DefUse, ReachingDefs, backward, find_calls, callee_is, callee_ends, op_local, op_const, switch_info, value_root
 from analysis.linear import Linear
-from analysis.atomics import AtomicModel, is_atomic_method, receiver_key
+from analysis.atomics import AtomicModel, is_atomic_method, receiver_key, role_field
 from analysis.table import describe_val, PathWalker
 from rules.common import need, unit, inl, uncovered_roots
 
@@ -77,7 +77,7 @@ def pair_rule(run, f, rid):
     run.rule(rid, "shared len bookkeeping: +1 after every Injector::push, -1 on every Steal::Success, no other writer", floor=5, template="T1/T9")
     am = AtomicModel(f)
     for adt, pushfn, popfn in ((OWS, OWS + "::push_with_priority", OWS + "::pop"), (WS, WS + "::push", WS + "::pop")):
-        key = (adt, "len")
+        key = (adt, role_field(f, adt, adt + "::len", "len"))       # the counter `len()` reports, whatever the field is called
         # writers of the shared len
         writers = {}
         for body in f.bodies:
@@ -556,7 +556,22 @@ def tick_rule(run, f, rid):
             continue
         du = DefUse(b)
         fa = [(x, t) for (x, t) in b.calls() if is_atomic_method(t, "fetch_add")]
-        ok = len(fa) == 1 and op_const(fa[0][1]["args"][1]) == 1 and receiver_key(b, du, fa[0][1]["args"][0]) == (adt, "tick") and not Cfg(b).in_cycle(fa[0][0])
+        tk = receiver_key(b, du, fa[0][1]["args"][0]) if len(fa) == 1 else None
+        # which private field holds the count is the author's business, provided it is a field of this queue that only
+        # tick() itself writes (on a counter shared with push/pop "one more per call" would not hold)
+        foreign = []
+        if tk and tk[0] == adt:
+            for ob in f.bodies:
+                if ob.kind == "Promoted" or ob.npath == fn or ob.npath.startswith(fn + "::{closure#"):
+                    continue
+                odu = None
+                for (_x, t_) in ob.calls():
+                    c_ = norm(t_.get("callee") or "")
+                    if c_.startswith("std::sync::atomic::Atomic::") and c_.rsplit("::", 1)[1] not in ("load", "new") and t_["args"]:
+                        odu = odu or DefUse(ob)
+                        if receiver_key(ob, odu, t_["args"][0]) == tk:
+                            foreign.append(ob.npath)
+        ok = len(fa) == 1 and op_const(fa[0][1]["args"][1]) == 1 and tk is not None and tk[0] == adt and not foreign and not Cfg(b).in_cycle(fa[0][0])
         sl = backward(b, 0, du)
         consts = sorted({c["v"] for c in sl.consts if "v" in c and c.get("ty") == "u32"})
         ok = ok and any(x == fa[0][0] for (x, _t) in sl.calls) and set(consts) <= {"0", "1", "4294967295"}
@@ -587,7 +602,7 @@ def fallback_rule(run, f, rid):
         lock_take, lock_rel = set(), set()
         for (x, t) in b.calls():
             c = norm(t.get("callee") or "")
-            if c.startswith("std::sync::atomic::Atomic::") and t["args"] and receiver_key(b, du, t["args"][0]) == (adt, "stealing"):
+            if c.startswith("std::sync::atomic::Atomic::") and t["args"] and receiver_key(b, du, t["args"][0]) == (adt, role_field(f, adt, adt + "::try_lock", "stealing")):
                 m = c.rsplit("::", 1)[1]
                 if m in ("compare_exchange", "compare_exchange_weak", "swap", "fetch_or"):
                     lock_take.add(x)
@@ -668,7 +683,7 @@ def len_reset_rule(run, f, rid):
     du = DefUse(b)
     # paths that return None: those not passing the Some arm of Worker::pop
     pops = find_calls(b, callee_is("st3::fifo::Worker::pop"))
-    stores = [(x, t) for (x, t) in b.calls() if is_atomic_method(t, "store") and receiver_key(b, du, t["args"][0]) == (OLQ, "len") and op_const(t["args"][1]) == 0]
+    stores = [(x, t) for (x, t) in b.calls() if is_atomic_method(t, "store") and receiver_key(b, du, t["args"][0]) == (OLQ, role_field(f, OLQ, OLQ + "::local_len", "len")) and op_const(t["args"][1]) == 0]
     arms = []
     for (pb, pt) in pops:
         for x in sorted(cfg.reachable(cfg.after(pb))):
